@@ -1074,6 +1074,10 @@ class WeightedTally(StatisticsInterface):
         """
         if self._n > 0 and self._sum_of_weights > 0:
             w_pop_var = self._weight_times_variance / self._sum_of_weights
+            if w_pop_var < 0.0:
+                # the accumulated sum can end up slightly below zero through
+                # rounding; a variance is never negative
+                w_pop_var = 0.0
             if biased:
                 return w_pop_var
             elif self._n_nonzero > 1:
